@@ -158,7 +158,7 @@ impl Builder {
 
 //@extract multiboot2-header/src/builder.rs :: impl Builder :: fn build
 //@  ret r
-//@  rewrite /\.as_bytes\(\)\.as_ref\(\)/ => /.as_bytes().vbytes()/ x11
+//@  rewrite /\.as_bytes\(\)\.as_ref\(\)/ => /.as_bytes().vbytes()/ x*
 //@  ghoststmt 2 => assert(concat_slices(byte_refs@) == flat(self.s1()) && all_mult8(self.s1()));
 //@  ghoststmt 3 => assert(concat_slices(byte_refs@) == flat(self.s2()) && all_mult8(self.s2()));
 //@  ghoststmt 4 => assert(concat_slices(byte_refs@) == flat(self.s3()) && all_mult8(self.s3()));
